@@ -111,6 +111,13 @@ def items(tier):
             if key not in seen:
                 seen.add(key)
                 out.append(("tree", d, mode))
+    # integer-typed variables with floating-point constants: the constants must stay doubles in the C text
+    v = lambda n, t="num": ("v", n, t)  # noqa: E731
+    for d in [("quot", v("x1"), ("c", 2.0)), ("quot", ("c", 1.0), ("c", 4.0)), ("sum2", v("x1"), ("quot", v("x2"), ("c", 2.0))),
+              ("quot", ("sum2", v("x1"), v("x2")), ("c", 1000.0)), ("prod2", ("c", 0.5), v("x1")), ("quot", v("x1"), ("c", -8.0)),
+              ("quot", ("c", 3.0), ("sum2", v("x1"), ("c", 1))), ("prod2", ("quot", v("x1"), ("c", 4.0)), ("c", 2.0)),
+              ("quot", ("prod2", v("x1"), ("c", 1.0)), v("x2")), ("sum2", ("quot", ("c", 1.0), ("c", 2.0)), v("x1"))]:
+        out.append(("tree", d, "mixed"))
     out += [("history", i) for i in range(6)] + [("cself",)]
     return out
 
@@ -157,7 +164,7 @@ def _fold(vals, better):
 def run_c(text, assignments, env, mode, int_div_python=False):
     """evaluate hoisted assignments in list order, then the expression"""
     cenv = _c_builtins(env)
-    ev = cexpr.CEval(cenv, mode=mode, truth=_truth, on_div=_on_div if mode == "int" else None)
+    ev = cexpr.CEval(cenv, mode=mode, truth=_truth, on_div=_on_div if mode in ("int", "mixed") else None)
     for name, s in assignments:
         if name in cenv:
             raise NameError(f"C name {name!r} assigned twice")
@@ -359,7 +366,9 @@ def check_history(i, tier):
                         # the caller supplies a name for an externally computed value; it must not be in use already
                         taken = {n for n, _ in cur.cse_name_list}
                         ext = "_cse_extern" if "_cse_extern" not in taken else "_cse_outside"
-                        cur = cur.copy_with_mapped_cses([(ext, "x*17")])
+                        # the externally computed value may use names hoisted so far
+                        ext_text = f"{cur.cse_name_list[-1][0]} * 17" if cur.cse_name_list else "x*17"
+                        cur = cur.copy_with_mapped_cses([(ext, ext_text)])
                     elif op_ == "orig":
                         cur = m0
                     txt = cur(pool[e_i])
@@ -372,7 +381,7 @@ def check_history(i, tier):
                 if len(set(names)) != len(names):
                     _hv(res, seq, plan, f"hoisted names not unique: {names}")
                     break
-                texts = [s for n, s in nl if n not in ("_cse_extern", "_cse_outside") or s != "x*17"]
+                texts = [s for n, s in nl if n not in ("_cse_extern", "_cse_outside")]
                 if len(set(texts)) != len(texts):
                     _hv(res, seq, plan, f"a wrapped subexpression is assigned more than once: {nl}")
                     break
